@@ -429,3 +429,143 @@ def run(sess):
     check_from(sess)
     check_inline_try_from(sess)
     check_cmp_small_big(sess)
+
+
+# ----------------------------------------------------------------------------- interface for ./check
+CRATES = ('starlark',)
+META = {
+    'explanation': 'C10: each integer operator (int/int_or_big.rs, int/inline_int.rs, bigint.rs) is executed symbolically from the MIR '
+                   'emitted from the working tree, for every representation combination (inline i32 / big), and compared with Python '
+                   'integer semantics; the invariant "Big is outside i32" is assumed on inputs and asserted on results (inductive step).',
+    'bounds': 'no loops in the encoded code; integer mode has no magnitude bound (+ - * // % neg abs cmp shifts conversions); '
+              '& | ^ in bit-vector mode with |n| < 2^126 (quick) / 2^254 (thorough); shift operands assumed to have < 2^64 bits',
+    'outside': 'literal parsing, int(str, base), formatting, UnpackValue for host types, equality of compile-time folding and run-time '
+               'execution (both call these functions; exercised by the replay only), num-bigint itself, heap allocation of results',
+    'assumptions': ['num_bigint::BigInt operations are the mathematical functions named in trusted_base',
+                    'nightly MIR (opt-level 2, no inlining, overflow checks on, debug assertions off) has the semantics of the shipped build',
+                    'the MIR executor and contract list are correct (validated every run against the native build on a boundary grid)'],
+}
+
+
+def replay_witness(w, rp):
+    from . import replay as R
+    kind = w['kind']
+    cases, expects, descr = [], [], ''
+    if kind == 'int_binop':
+        a, b, op = int(w['a']), int(w['b']), w['op']
+        exp = R.py_binop(op, a, b)
+        cases = [{'kind': 'eval', 'program': R.binop_program(op, R.lit(a), R.lit(b))},
+                 {'kind': 'eval', 'program': R.binop_program(op, 'a', 'b'), 'vars': {'a': {'int': str(a)}, 'b': {'int': str(b)}}}]
+        expects = [exp, exp]
+        descr = f'{a} {op} {b} expected {exp}'
+        role = f'int {op}'
+    elif kind == 'int_unop':
+        a, op = int(w['a']), w['op']
+        if op not in ('neg', 'not', 'abs'):
+            return {'reproduced': False, 'detail': f'no public-API replay for {op}', 'role': f'int {op}'}
+        exp, prog = R.py_unop(op, a)
+        cases = [{'kind': 'eval', 'program': prog(R.lit(a))}, {'kind': 'eval', 'program': prog('a'), 'vars': {'a': {'int': str(a)}}}]
+        expects = [exp, exp]
+        descr = f'{op}({a}) expected {exp}'
+        role = f'int {op}'
+    elif kind == 'int_from':
+        x = int(w['x'])
+        cases = [{'kind': 'eval', 'program': 'a', 'vars': {'a': {'int': str(x)}}}, {'kind': 'eval', 'program': 'a + 0', 'vars': {'a': {'int': str(x)}}}]
+        expects = [('ok', str(x))] * 2
+        descr = f'host integer {x} round trip'
+        role = f'int from {w.get("ty")}'
+    else:
+        return {'reproduced': False, 'detail': f'unknown witness kind {kind}', 'role': kind}
+    got = {}
+    repro = False
+    for profile in ('dev', 'release'):
+        res = rp.run(cases, profile)
+        got[profile] = res
+        for e, g in zip(expects, res):
+            if not R.matches(e, g):
+                repro = True
+    return {'reproduced': repro, 'role': role, 'detail': f'{descr}; native: {json_short(got)}', 'cases': cases}
+
+
+def json_short(x):
+    import json
+    s = json.dumps(x)
+    return s if len(s) < 600 else s[:600] + '...'
+
+
+GRID = [0, 1, -1, 2, -2, 7, -7, 31, 32, 33, 63, 64, 65536, 100000, 100001, I32_MAX, I32_MIN, I32_MAX + 1, I32_MIN - 1,
+        1 << 32, (1 << 53) + 1, -(1 << 63), (1 << 64) - 1, 1 << 64, -(3 << 70)]
+
+
+def validate(sess, rp):
+    """push a boundary grid through the encoding (inputs fixed, solver asked for the output) and through the native build"""
+    from . import replay as R
+    mism = []
+    n = 0
+    cases, meta = [], []
+    for opname in ('add', 'sub', 'mul', 'floor_div', 'percent', 'left_shift', 'right_shift', 'bitand', 'bitor', 'bitxor'):
+        file, item, argrx, mode, kind, oracle, errcond, pyop = BINOPS[opname]
+        intmode = (mode == 'int')
+        for ka, kb in itertools.product(('small', 'big'), repeat=2):
+            ex = sess.executor(intmode, bigw=128)
+            mem = {}
+            (a, am, ac), (b, bm, bc) = operands(ex, (ka, kb), ('a', 'b'), mem)
+            fn = ex.get_fn(sess.db.find_in_file(file, item, argrx))
+            try:
+                outs = ex.run(fn, [a, b], Path(ac + bc), mem=mem)
+            except Unsupported:
+                continue
+            s = z3.Solver()
+            from .common import POW2_AXIOMS
+            for ax in POW2_AXIOMS:
+                s.add(ax)
+            for lm in ex.extra_lemmas:
+                s.add(lm)
+            isk = lambda v, k: (I32_MIN <= v <= I32_MAX) == (k == 'small')
+            for va in GRID:
+                if not isk(va, ka):
+                    continue
+                for vb in GRID:
+                    if not isk(vb, kb):
+                        continue
+                    if opname in ('left_shift', 'right_shift') and not (vb <= 64):
+                        continue
+                    if not intmode and (abs(va) >= 1 << 100 or abs(vb) >= 1 << 100):
+                        continue
+                    enc = None
+                    for v, p, m in outs:
+                        s.push()
+                        for c in p.conds:
+                            s.add(c)
+                        if intmode:
+                            s.add(am == va, bm == vb)
+                        else:
+                            s.add(am == z3.BitVecVal(va, am.size()), bm == z3.BitVecVal(vb, bm.size()))
+                        if s.check() == z3.sat:
+                            mdl = s.model()
+                            if isinstance(v, Enum) and v.variant == 'Err':
+                                enc = ('err', None)
+                            else:
+                                vv = v.fields[0] if (isinstance(v, Enum) and v.variant == 'Ok') else v
+                                val, canon, _ = result_value(ex, m, vv)
+                                r = mdl.eval(val, model_completion=True)
+                                enc = ('ok', str(r.as_long() if intmode else r.as_signed_long()))
+                            s.pop()
+                            break
+                        s.pop()
+                    if enc is None:
+                        mism.append(f'{opname}({va},{vb}): no feasible path in the encoding')
+                        continue
+                    cases.append({'kind': 'eval', 'program': R.binop_program(pyop, 'a', 'b'), 'vars': {'a': {'int': str(va)}, 'b': {'int': str(vb)}}})
+                    meta.append((opname, va, vb, enc))
+            sess.absorb(ex)
+    res = rp.run(cases, 'dev')
+    for (opname, va, vb, enc), g in zip(meta, res):
+        n += 1
+        if enc[0] == 'err':
+            ok = 'err' in g
+        else:
+            ok = g.get('ok') == enc[1]
+        if not ok:
+            mism.append(f'{opname}({va},{vb}): encoding says {enc}, native build says {json_short(g)}')
+    return n, mism
